@@ -493,9 +493,13 @@ def judge(w, obs, twin, info, transient, fail, stats, what, on, pl):
             if not ok and got == twin['c%d' % i]:
                 stats['transient_checked'] += 1
                 continue
-            if not ok and not all(x.startswith('e:') for x in flat) and \
-                    i not in info['unknown_cells']:
-                ok = transient_ok(w, i, info, gone_sheets)
+            if not ok and i not in info['unknown_cells'] and \
+                    transient_ok(w, i, info, gone_sheets):
+                # the only unresolved items this cell uses directly are
+                # transiently failing books: it may have been served (and
+                # then shows whatever the served cells hold, errors of other
+                # faults included) - judged by C14.transient below
+                ok = True
         stats['direct_checked'] += 1
         if not ok:
             fail('C14.kind', 'faults {%s}: cell %d uses the unresolved item '
